@@ -113,7 +113,7 @@ func (e *engine) account(c Case, r runResult) {
 	if c.Opts.Mode != "" {
 		e.rep.Count("opt:mode:" + c.Opts.Mode)
 	}
-	if r.Verdict != "panic" && r.Verdict != "hang" && len(e.latchObs) < 4000 && !streaming[c.Format] {
+	if r.Verdict != "panic" && r.Verdict != "hang" && len(e.latchObs) < 6000 {
 		e.latchObs = append(e.latchObs, latchObservation{Format: c.Format, N: len(r.Stmts), Err: r.Verdict == "error", LifeOK: len(r.Life) == 0})
 	}
 }
@@ -411,7 +411,7 @@ func (e *engine) oneChild(cases []Case, why string) int {
 	var stderr bytes.Buffer
 	cmd.Stderr = &stderr
 	if err := cmd.Start(); err != nil {
-		fmt.Fprintln(os.Stderr, "child:", err)
+		fmt.Fprintln(realStderr, "child:", err)
 		return len(cases)
 	}
 	go func() {
